@@ -31,7 +31,8 @@ A_VAL = ["[C]", "[=C]", "[#C]", "[N]", "[#N]", "[O]", "[=O]", "[F]", "[S]", "[=S
          "[=Branch1]", "[#Branch1]", "[Ring1]", "[=Ring1]", "[#Ring1]", "[Ring2]", "."]
 A_CHG = ["[C+1]", "[=C-1]", "[N+1]", "[=N+1]", "[#N-1]", "[O+1]", "[=O-1]", "[CH2]", "[=CH1]", "[NH1]", "[Fe]",
          "[=Fe+2]", "[#Xe]", "[H]", "[Branch1]", "[#Branch1]", "[Ring1]", "[#Ring1]", "[\\/Ring1]", "."]
-ALPHABETS = {"val": A_VAL, "chg": A_CHG}
+A_CONT = ["[C]", "[N]", "[Branch1]", "[Ring1]", "[=Ring1]", "[#Ring1]"]     # rings competing for valences from both directions
+ALPHABETS = {"val": A_VAL, "chg": A_CHG, "contention": A_CONT}
 
 HUGE = {"?": 1000}
 
@@ -111,9 +112,10 @@ def plan(tier, seed):
     if thorough:
         grid += [("val", "default", 6)] + [("val", t, 5) for t in tables.ALL if t != "default"]
         grid += [("chg", t, 5) for t in ("default", "hypervalent", "mix")] + [("chg", t, 4) for t in ("zero", "big", "octet_rule")]
+        grid += [("contention", "default", 9), ("contention", "octet_rule", 8)]
     else:
         grid += [("val", "default", 5)] + [("val", t, 4) for t in tables.ALL if t != "default"]
-        grid += [("chg", "default", 4), ("chg", "mix", 4), ("chg", "hypervalent", 4)]
+        grid += [("chg", "default", 4), ("chg", "mix", 4), ("chg", "hypervalent", 4), ("contention", "default", 8)]
     extras = [("chg", "big", 4), ("chg", "zero", 4), ("val", "mix", 5), ("chg", "octet_rule", 4)]
     grid.append(extras[seed % len(extras)])
     scopes, tasks = [], []
